@@ -926,6 +926,7 @@ class Frame:
         self.env = env
         self.closure = closure or {}
         self.rets = []
+        self.loops = []
         self.base = CTX.guard
 
     # -- statements -----------------------------------------------------------------
@@ -1058,14 +1059,44 @@ class Frame:
         if isinstance(st, ast.For):
             it = self.ev(st.iter, env)
             it = self.iterate(it)
+            breaks = []                      # (guard, env) of paths that left the loop by `break`
             for v in it:
                 self.assign(st.target, v, env)
-                g = self.block(st.body, env, g)
+                self.loops.append({"cont": [], "brk": breaks})
+                try:
+                    g_end = self.block(st.body, env, g)
+                finally:
+                    frame = self.loops.pop()
+                # paths that ended the iteration by `continue` re-join the fall-through path
+                g = self._join(env, g_end, frame["cont"])
                 if g is False:
-                    return False
-            if st.orelse:
+                    break
+            if st.orelse and g is not False:
                 g = self.block(st.orelse, env, g)
+            return self._join(env, g, breaks)
+        if isinstance(st, ast.Try):
+            n0 = len(CTX.errors)
+            g = self.block(st.body, env, g)
+            new = CTX.errors[n0:]
+            reraises = all(h.body and isinstance(h.body[-1], ast.Raise) for h in st.handlers)
+            if new and not reraises:
+                raise Unsupported("try/except that handles a symbolic error")
+            # every handler re-raises: an error inside the body stays an error of this path
+            if g is not False and st.orelse:
+                g = self.block(st.orelse, env, g)
+            if g is not False and st.finalbody:
+                g = self.block(st.finalbody, env, g)
             return g
+        if isinstance(st, ast.Continue):
+            if not self.loops:
+                raise Unsupported("continue outside loop")
+            self.loops[-1]["cont"].append((g, copy_env(env)))
+            return False
+        if isinstance(st, ast.Break):
+            if not self.loops:
+                raise Unsupported("break outside loop")
+            self.loops[-1]["brk"].append((g, copy_env(env)))
+            return False
         if isinstance(st, ast.Raise):
             kind = "raise"
             if st.exc is not None:
@@ -1089,6 +1120,23 @@ class Frame:
         if isinstance(st, (ast.Import, ast.ImportFrom)):
             raise Unsupported("import in body")
         raise Unsupported(f"statement {type(st).__name__}")
+
+    def _join(self, env, g, others):
+        """merge the environments of paths (guard, env) into `env` (whose path guard is g)"""
+        for og, oenv in others:
+            if g is False:
+                env.clear()
+                env.update(oenv)
+                g = og
+                continue
+            for k in set(env) | set(oenv):
+                if k in env and k in oenv:
+                    if env[k] is not oenv[k]:
+                        env[k] = merge(zbool(og), oenv[k], env[k])
+                elif k in oenv:
+                    env[k] = oenv[k]
+            g = zor(g, og)
+        return g
 
     def iterate(self, it):
         if isinstance(it, Choice) or is_sym(it):
@@ -1237,7 +1285,11 @@ class Frame:
             return self.call(e, env)
         if isinstance(e, (ast.ListComp, ast.GeneratorExp, ast.SetComp)):
             out = []
-            self.comp(e.generators, 0, env, lambda en: out.append(self.ev(e.elt, en)))
+            guards = []
+            self.comp(e.generators, 0, env, lambda en, g=True: (out.append(self.ev(e.elt, en)), guards.append(g)))
+            if any(g is not True for g in guards):
+                from gsv import colsym
+                return colsym.GList(list(zip(guards, out)))
             return set(out) if isinstance(e, ast.SetComp) else out
         if isinstance(e, ast.DictComp):
             out = {}
@@ -1250,7 +1302,20 @@ class Frame:
             self.comp(e.generators, 0, env, add)
             return out
         if isinstance(e, ast.JoinedStr):
-            return "<fstring>"
+            parts = []
+            for v in e.values:
+                if isinstance(v, ast.Constant):
+                    parts.append(str(v.value))
+                else:
+                    x = self.ev(v.value, env)
+                    if is_symbolic(x):
+                        parts.append("<symbolic>")
+                    else:
+                        conv = {115: str, 114: repr, 97: ascii}.get(v.conversion, None)
+                        x = conv(x) if conv else x
+                        spec = self.ev(v.format_spec, env) if v.format_spec is not None else ""
+                        parts.append(format(x, spec))
+            return "".join(parts)
         if isinstance(e, ast.Starred):
             raise Unsupported("starred outside call")
         if isinstance(e, ast.Lambda):
@@ -1270,24 +1335,29 @@ class Frame:
                 out.append(self.ev(x, env))
         return out
 
-    def comp(self, gens, i, env, emit):
+    def comp(self, gens, i, env, emit, guard=True):
         if i == len(gens):
-            emit(env)
+            if guard is True:
+                emit(env)
+            else:
+                emit(env, guard)
             return
         gen = gens[i]
         for v in self.iterate(self.ev(gen.iter, env)):
             en = dict(env)
             self.assign(gen.target, v, en)
             ok = True
+            g = guard
             for cond in gen.ifs:
                 c = self.ev(cond, en)
                 if is_sym(c):
-                    raise Unsupported("symbolic filter in comprehension")
+                    g = zand(g, truth(c))       # element present under a guard
+                    continue
                 if not c:
                     ok = False
                     break
             if ok:
-                self.comp(gens, i + 1, en, emit)
+                self.comp(gens, i + 1, en, emit, g)
 
     def call(self, e, env):
         f = self.ev(e.func, env)
